@@ -72,6 +72,9 @@ THOROUGH_EXTRA = [
     ("two-disconnects-vs-join", "C|J1,E,L|J1,E,L|J1", [1, 2, 3, 2, 3], "two departures of entity owners against a join"),
 ]
 
+# scenarios explored with the deliveries of Session.Broadcast / BroadcastTo as additional scheduling points (not modelled in Coq)
+POINT_SCENARIOS = {"switch-vs-entity-add"}
+
 THOROUGH_BOUND2 = set(n for (n, _, _, _) in THOROUGH_EXTRA)     # three racers: preemption bound 2 also in the thorough tier
 
 
@@ -354,7 +357,7 @@ def phase(tier="quick", verbose=False):
     with C.Lock("run-C01conc"):
         # 1. the stored witnesses of the refutation theorems replay on the real code
         for fn, o in witnesses():
-            execs, _ = run_l3v(paths, o["progs"], o.get("setup", []), ["-run", ",".join(map(str, o["schedule"]))], model=o.get("model"))
+            execs, _ = run_l3v(paths, o["progs"], o.get("setup", []), ["-run", ",".join(map(str, o["schedule"]))] + (["-points"] if o.get("points") else []), model=o.get("model"))
             ex = execs[0]
             nexec += 1
             got = ex.kinds(o["scenario"])
@@ -372,8 +375,8 @@ def phase(tier="quick", verbose=False):
         scen = SCENARIOS + (THOROUGH_EXTRA if tier == "thorough" else [])
         for (name, progs, setup, what) in scen:
             b = 2 if name in THOROUGH_BOUND2 else bound
-            execs, trunc = run_l3v(paths, progs, setup, ["-explore", "-bound", str(b), "-max", "400000" if tier == "thorough" else "30000"], timeout=6000,
-                                   model=MODEL_ID.get(name))
+            execs, trunc = run_l3v(paths, progs, setup, ["-explore", "-bound", str(b), "-max", "400000" if tier == "thorough" else "30000"] +
+                                   (["-points"] if name in POINT_SCENARIOS else []), timeout=6000, model=MODEL_ID.get(name))
             nexec += len(execs)
             nbad = 0
             per_kind = {}
@@ -505,7 +508,8 @@ def do_replay(path):
         return run("quick", None)
     with C.Lock("run-C01conc"):
         try:
-            execs, _ = run_l3v(paths, o["progs"], o.get("setup", []), ["-run", ",".join(map(str, o["schedule"]))],
+            execs, _ = run_l3v(paths, o["progs"], o.get("setup", []), ["-run", ",".join(map(str, o["schedule"]))] +
+                               (["-points"] if o.get("scenario") in POINT_SCENARIOS else []),
                                model=o.get("model") or MODEL_ID.get(o.get("scenario")))
         except RuntimeError as e:
             print("INTERNAL: " + str(e)); return 2
